@@ -41,6 +41,7 @@ func run(r *vk.Run) {
 	busStress(r)
 	resForced(r)
 	resStress(r)
+	pullIDRemovalWhilePaused(r)
 	r.Require("bus-forced-scenarios", 20)
 	r.Require("resource-forced-scenarios", 50)
 	r.Require("stress-scenarios", 100)
@@ -863,6 +864,75 @@ func resStress(r *vk.Run) {
 		cancel()
 		finalCheck(r, "pullid-removal", base, fmt.Sprintf("case %d", i), map[string]any{"case": i})
 		r.Unguard()
+	}
+}
+
+// pullIDRemovalWhilePaused: the item is created AFTER the single-item subscription was opened, the consumer is not
+// receiving while the item and two others are created and the item is deleted again; then it receives. Whatever the
+// lossy stage merged meanwhile, the item was removed: the PullID channel closes and its goroutines end, without
+// the context ever being cancelled.
+func pullIDRemovalWhilePaused(r *vk.Run) {
+	idx := 0
+	for _, bp := range []bool{false, true} {
+		for _, uo := range []bool{false, true} {
+			for _, pauseAfter := range []int{0, 1} {
+				idx++
+				if !r.Mine(idx) {
+					continue
+				}
+				if !r.Guard("C10/panic/pullid-removal-paused", map[string]any{"bp": bp, "updatesOnly": uo}) {
+					continue
+				}
+				base := baseline()
+				col := resource.NewCollection(resource.WithClock(clk{}), resource.WithInitialRecord("b", &tat{DefaultString: "b-init"}))
+				ctx, cancel := context.WithCancel(context.Background())
+				o := subOpts{Kind: "pullid", BP: bp, UpdatesOnly: uo, StopAfter: pauseAfter}
+				s := &rsub{o: o, cancel: cancel, resume: make(chan struct{})}
+				s.valCh = col.PullID(ctx, "x", resource.WithBackpressure(bp), resource.WithUpdatesOnly(uo))
+				s.consume()
+				vk.Quiesce()
+				tw := vk.Go(func() {
+					col.Add("x", &tat{DefaultString: "x1"})
+					col.Add("y", &tat{DefaultString: "y1"})
+					col.Add("z", &tat{DefaultString: "z1"})
+					col.Delete("x")
+					col.Update("b", &tat{DefaultString: "after"})
+				})
+				vk.Quiesce()
+				close(s.resume) // the consumer receives again
+				gs, ok := r.MustQuiesce("c10-pullid-paused")
+				if !ok {
+					cancel()
+					return
+				}
+				r.Eval(1)
+				r.Count("pullid-removal-while-paused-scenarios", 1)
+				r.Distinct(fmt.Sprintf("pullidpaused:%v:%v:%d", bp, uo, pauseAfter))
+				desc := fmt.Sprintf("PullID(x) (%v) opened before x exists; the consumer pauses after %d event(s) while Add(x), Add(y), Add(z), Delete(x), Update(b) are made, then receives again", o, pauseAfter)
+				replay := map[string]any{"bp": bp, "updatesOnly": uo, "pauseAfter": pauseAfter}
+				if !tw.Done() {
+					r.Violation("C10/stall/pullid-removal-paused/"+o.class(), desc+": the writer has not returned at the quiescent point\n"+vk.DescribeGs(vk.LibraryGoroutines(gs, base)), replay)
+					cancel()
+					return
+				}
+				if !s.isClosed() {
+					r.Violation("C10/pullid-not-ended/paused/"+o.class(), desc+": item x was removed but the PullID channel is still open at the quiescent point", replay)
+				} else if leaked := vk.LibraryGoroutines(gs, base); len(leaked) > 0 {
+					var real []vk.G
+					for _, g := range leaked {
+						if !g.Has("resource.timeoutAlarm") {
+							real = append(real, g)
+						}
+					}
+					if len(real) > 0 {
+						r.Violation("C10/leak/pullid-removal-paused/"+o.class(), desc+": PullID ended by removal (context never cancelled) but library goroutines remain:\n"+vk.DescribeGs(real), replay)
+					}
+				}
+				cancel()
+				finalCheck(r, "pullid-removal-paused", base, desc, replay)
+				r.Unguard()
+			}
+		}
 	}
 }
 
